@@ -258,6 +258,8 @@ type slot struct {
 	// request's scope); the copy is written to while the probe is being served
 	keepCopy bool
 	copies   []*app.RequestContext
+	// panicInForEachKey: the dirty handler's last act is a ForEachKey whose callback panics
+	panicInForEachKey bool
 }
 
 type harness struct {
@@ -302,6 +304,12 @@ func newHarnessMode(stream bool) *harness {
 			if s.keepCopy {
 				s.copies = append(s.copies, ctx.Copy())
 			}
+			if s.panicInForEachKey {
+				ctx.Set("dirty-key", 1)
+				ctx.ForEachKey(func(k string, v interface{}) {
+					panic("callback of ForEachKey panics (recovery middleware must catch it)")
+				})
+			}
 			if s.panicEnd {
 				panic("dirty handler panics (recovery middleware must catch it)")
 			}
@@ -314,8 +322,9 @@ func newHarnessMode(stream bool) *harness {
 			if s != nil {
 				s.probePtr = reflect.ValueOf(ctx).Pointer()
 				// a goroutine that was handed a copy of the earlier request goes on using it
-				// (every probe, also the fresh reference:) the lazily parsed parts exist before
-				// any retained copy is touched
+				// (every probe, also the fresh reference:) the key store is written to — which needs
+				// its lock — and the lazily parsed parts exist before any retained copy is touched
+				ctx.Set("probe-key", "probe-value")
 				ctx.QueryArgs().Len()
 				ctx.PostArgs().Len()
 				ctx.Request.Header.Cookie("pc")
@@ -467,6 +476,7 @@ func work(w *mon.W) {
 		s.panicEnd = r.Chance(8)
 		pv, dv := r.Intn(nProbeVariants), r.Intn(3)
 		s.writeErr = -1
+		s.panicInForEachKey = r.Chance(10)
 		s.keepCopy = r.Chance(4)
 		if s.keepCopy {
 			w.Count("dirty_requests_whose_copy_is_kept_and_written_later", 1)
@@ -502,7 +512,7 @@ func work(w *mon.W) {
 			h.mu.Unlock()
 		}()
 		c.Detail = func() interface{} {
-			return map[string]interface{}{"program": ds, "panic_at_end": s.panicEnd, "hijack": s.hijack, "write_error_after": s.writeErr, "dirty_request": dirtyReqV(dv, id), "probe_request": probeReqV(pv, id)}
+			return map[string]interface{}{"program": ds, "panic_at_end": s.panicEnd, "panic_in_foreachkey_callback": s.panicInForEachKey, "hijack": s.hijack, "write_error_after": s.writeErr, "dirty_request": dirtyReqV(dv, id), "probe_request": probeReqV(pv, id)}
 		}
 		w.Count("histories", 1)
 		compare := func(where, out string) bool {
